@@ -37,7 +37,7 @@ pub(crate) fn create_format_arg(
     quote!(
         let arg = {
             #[allow(non_camel_case_types)] // We're using __ to help avoid clashes.
-            struct Educe__DebugField<V, M>(V, ::core::marker::PhantomData<M>);
+            struct Educe__DebugField<V, M: ?::core::marker::Sized>(V, ::core::marker::PhantomData<M>);
 
             impl #impl_generics ::core::fmt::Debug
                 for Educe__DebugField<&#field_ty, #ty_ident #ty_generics>
